@@ -1,9 +1,10 @@
 package main
 
 import (
-	"go/token"
 	"fmt"
+	"go/token"
 	"go/types"
+	"sort"
 	"strings"
 
 	"golang.org/x/tools/go/ssa"
@@ -195,6 +196,8 @@ func runC16(c *Ctx) {
 	// while those links are never modified once built (C12's R12.1)
 	r.Rule("R16.6", "an object handed to a sync.Pool is not also returned to the caller or kept")
 	c16PoolDiscipline(c)
+	r.Rule("R16.7", "no public function writes into a slice or map its caller handed it")
+	c16CallerSlices(c)
 	r.Rule("R16.5", "structure shared by by-value copies of a cell (property-chain links, callback lists) is never modified in place")
 	importPremises(c, "R16.5", "shared-structure premise ", "two tables holding copies of one cell would write the same memory", func(o *Ob) bool { return o.Rule == "R12.1" }, func() { runC12(c) })
 	importPremises(c, "R16.5", "shared-structure premise ", "two tables holding copies of one cell would append into the same backing array", func(o *Ob) bool { return o.Rule == "R13.6" }, func() { runC13(c) })
@@ -652,4 +655,66 @@ func c16PoolDiscipline(c *Ctx) {
 	if nch == 0 {
 		r.Check("R16.6", "module", "no package-level channel carries objects between calls", 0, true, "")
 	}
+}
+
+// c16CallerSlices: goroutines that build their own tables may still share what they build them FROM (one slice of
+// column titles, one list of items). The library may read such an argument but not write into it: a store into
+// an element of a slice or map parameter of a public function (directly, or in whatever it calls with it) is a
+// write to memory the caller owns and may be sharing.
+func c16CallerSlices(c *Ctx) {
+	r := c.R
+	eff := c.Effects()
+	n := 0
+	for _, fn := range c.LibFuncs() {
+		if fn.Parent() != nil || fn.Synthetic != "" || funcPkgPath(fn) == pkgPath("examples") || fn.Object() == nil || !fn.Object().Exported() {
+			continue
+		}
+		if recv := fn.Signature.Recv(); recv != nil {
+			if nt := namedOf(recv.Type()); nt == nil || !nt.Obj().Exported() {
+				continue
+			}
+		}
+		sum := eff.Summary(fn)
+		if sum == nil {
+			continue
+		}
+		first := 0
+		if fn.Signature.Recv() != nil {
+			first = 1
+		}
+		for i := first; i < len(fn.Params); i++ {
+			par := fn.Params[i]
+			switch pt := par.Type().Underlying().(type) {
+			case *types.Slice:
+				// a buffer the function is asked to fill ([]byte destination) is the caller's wish, not a leak
+				if b, isB := pt.Elem().Underlying().(*types.Basic); isB && b.Kind() == types.Uint8 {
+					continue
+				}
+			case *types.Map:
+			default:
+				continue
+			}
+			n++
+			var bad []string
+			var at token.Pos
+			for _, ef := range sum.Effects {
+				if ef.Org.Kind != orgParam || ef.Org.Idx != i || ef.Org.Deep {
+					continue
+				}
+				switch ef.What {
+				case "store", "mapupdate", "copy", "delete":
+					bad = append(bad, ef.What+" "+ef.Path+" in "+FuncName(ef.Fn))
+					if ef.At != nil {
+						at = ef.At.Pos()
+					}
+				}
+			}
+			sort.Strings(bad)
+			if at == token.NoPos {
+				at = fn.Pos()
+			}
+			r.Check("R16.7", FuncName(fn), "parameter "+par.Name()+" (a slice or map of the caller's) is only read", at, len(bad) == 0, strings.Join(bad, "; ")+": goroutines building separate tables from one shared list would write the same memory")
+		}
+	}
+	r.Floor("R16.7", "slice/map parameters of public functions", n, 3)
 }
